@@ -239,7 +239,7 @@ UNITS['U02w'] = dict(
     not_covered=[])
 
 UNITS['U02b'] = dict(
-    kind='kani', crate='kani/U02b', needs_lock=True, timeout_s=900, mem_gb=10, jobs=7,
+    kind='kani', crate='kani/U02b', needs_lock=True, timeout_s=900, mem_gb=10, jobs=6,
     title='BOUNDED fallback for U02: real ColumnBuffer::{null,push_ints,push_nulls,push_present,init_present} on fixed-shape scenarios around the bitmap byte boundary (all values and null maps symbolic) against a row model',
     harnesses=[dict(name='proofs::%s' % n, bounded='fixed shape %s, unwind 11' % n, unwind=11, clause='row count, NULL exactly where missing, integer values kept, no stray bits', fn='ColumnBuffer ops') for n in ['dense3_then_mapped', 'dense8_then_mapped', 'dense7_then_null', 'dense8_then_null', 'dense9_then_null', 'late_column_after_3', 'late_column_after_8']]
     + [dict(name='proofs::vx_canary', expect_fail=True)],
@@ -259,7 +259,7 @@ UNITS['U16k'] = dict(
     kind='kani', crate='kani/U16', needs_lock=True, timeout_s=1200,
     title='xor_float/double.rs: encode/decode loop bodies, prologues and mask (slices) - induction base and step (complete: all states satisfying Inv, all 2^64 next values, all mantissa settings)',
     harnesses=[dict(name='proofs::base', clause='prologues establish Inv; mask keeps sign/exponent/m mantissa bits', fn='encode/decode prologue'),
-               dict(name='proofs::step', clause='enc_body; dec_body: all bits consumed, value equal under mask, Inv re-established, no panic', fn='encode/decode loop bodies'),
+               dict(name='proofs::step', unwind=3, clause='enc_body (the encoder loop run for one element); dec_body: all bits consumed, value equal under mask, Inv re-established, no panic', fn='encode/decode loop bodies'),
                dict(name='proofs::vx_canary', expect_fail=True)],
     assumptions=['A-bitbuffer: BitWriteStream/BitReadStream (LittleEndian) modelled as a bit FIFO (shim in kani/U16/src/lib.rs)',
                  'A-ind-scheme: base + step + equal trip counts of the two loops (structure of the loop headers, not re-checked by a verifier) give the round trip for every length',
@@ -273,8 +273,8 @@ UNITS['U17k'] = dict(
     + [dict(name='proofs::%s_keeps_rows' % n, bounded='vector length 3 (floats any f64, row indices any u64, promoted ints any value in -128..=127), unwind 6', unwind=6, clause=c, fn='event_buffer::ColumnBuffer::push[slice %s]' % n) for (n, c) in [
         ('arm_dense_to_sparse', 'dense row i becomes sparse entry (i, value); the new value is appended at existing_len'),
         ('arm_i64_to_sparse', 'dense integer row i becomes sparse entry (i, value); the new value is appended at existing_len'),
-        ('arm_i64_to_dense', 'promotion keeps length and order: out[i] == data[i] as f64'),
-        ('arm_sparse_i64_to_sparse', 'promotion keeps every row index: out[i] == (data[i].0, data[i].1 as f64)')]]
+        ('arm_sparse_i64_to_sparse', 'promotion keeps every row index: out[i] == (data[i].0, data[i].1 as f64)'),
+        ('arm_i64_gets_float', 'whole (I64, Float) arm incl. the recursive push: integer rows promoted in place, the float at existing_len, a gap stays NULL')]]
     + [dict(name='proofs::vx_canary', expect_fail=True)],
     assumptions=['whole crate compiled unmodified for the two whole-fn harnesses (capnp dependency included but not exercised)',
                  'arm slices: the match binding `data` (from `&mut self.data`) is restated as a `&mut Vec<_>` parameter; the recursive self.push that follows a promotion is covered by the whole-fn harnesses only for the float-column shapes'],
@@ -450,7 +450,7 @@ UNITS['U34n'] = dict(
     not_covered=['patterns longer than the bound, other characters', 'the escape conventions (\\_ and %%)', 'the RegexMatch operator itself'])
 
 UNITS['U35k'] = dict(
-    kind='kani', crate='kani/U35', timeout_s=900, mem_gb=10, jobs=7,
+    kind='kani', crate='kani/U35', timeout_s=900, mem_gb=10, jobs=6,
     title='BOUNDED (seven fixed shapes: LIMIT n <= 2, one batch of <= 4 rows, keys any value in -128..=127): top_n.rs TopN::execute body (slice) with real heap_replace and i64 comparators - keeps the n best rows, LIMIT 0 keeps none',
     harnesses=[dict(name='proofs::%s' % h, bounded='fixed shape %s, unwind 7' % h, unwind=7, clause='min(n, rows) rows kept; each kept key is the key of its recorded row; rows distinct; no dropped row sorts strictly before a kept row; never a panic', fn='TopN::execute[slice] + heap_replace')
                for h in ('limit0_two_rows_asc', 'limit0_one_row_desc', 'limit1_three_rows_asc', 'limit2_two_rows_asc', 'limit2_one_row_asc', 'limit2_four_rows_asc', 'limit2_three_rows_desc')]
@@ -531,8 +531,8 @@ PROPS = {
                 technique='bounded Kani harnesses (labelled bounded, not counted as discharged obligations) over statement / expression slices of the real sanitize_table_name',
                 explanation='U24k: two bounded Kani harnesses over slices of storage.rs sanitize_table_name - (1) the decision whether the cleaned name is used verbatim or carries the digest of the original, for all cleaned / requested names of two characters over {E,e,-,.,/,_,7,space}; (2) the cleaning steps after lower-casing, for all two-character names over the same alphabet. No obligation is discharged deductively for this property; the column -> file routing is not covered at all.',
                 assumptions=[], not_covered=['column -> sub-partition file routing', 'partition file names', 'names longer than 2 characters, non-ASCII names', 'lazy loading of sub-partitions']),
-    'C13': dict(level='proof', units=['U02', 'U27k'],
-                level_text='Verus proofs: a column missing from a batch is padded with NULLs for that batch (extend_to_largest body), a column first seen late reads NULL for all earlier rows (ColumnBuffer::null + push_*), per-column append of every input representation; complete Kani proof that a column missing from a partition is given exactly the rows the WHERE clause keeps, for every filter kind',
+    'C13': dict(level='proof', units=['U02', 'U27k', 'U17k'],
+                level_text='Verus proofs: a column missing from a batch is padded with NULLs for that batch (extend_to_largest body), a column first seen late reads NULL for all earlier rows (ColumnBuffer::null + push_*), per-column append of every input representation; complete Kani proof that a column missing from a partition is given exactly the rows the WHERE clause keeps, for every filter kind; bounded Kani harnesses (fixed row shapes, labelled bounded) that the client-side event buffer leaves NULL exactly the rows that received no value',
                 level_note='catalogue tables, lazy column_names initialisation, SELECT * expansion and the HashMap iteration around the per-column code are not covered',
                 technique='contract-based deductive verification (Verus) of extracted functions and statement slices',
                 assumptions=[], not_covered=['catalogue (_meta_tables, _meta_columns_*)', 'compaction column list', 'SELECT * expansion']),
